@@ -318,8 +318,73 @@ def r3_index_builder(ctx):
         ctx.ob(fn.where, "a missing .fai is created from create_index(path) with IndexBuffer next to the FASTA", ok, "", key=f"C17-R3|write|{qn}")
 
 
+# single-slot memos that take a parameter, confirmed by reading: (module, function, attribute) -> why the argument cannot vary
+SLOT_MEMO_OK = {
+    ("bionumpy.io.npdataclassreader", "NpDataclassReader._get_lazy_class", "__lazy_class"):
+        "both arguments come from the reader's own buffer type (chunk.dataclass, chunk.header_data), fixed when the reader is created",
+}
+
+
+def slot_memo_sites(ix, modules):
+    """`if self.A is None: self.A = E` (or `not self.A` / `not hasattr(self, 'A')`) in a method other than __init__ where E reads a parameter of the method"""
+    out, scanned = [], 0
+    for mod in modules:
+        if mod not in ix.modules:
+            continue
+        for fi in ix.module(mod).functions.values():
+            if isinstance(fi.node, ast.Lambda) or fi.qualname.split(".")[-1] == "__init__":
+                continue
+            scanned += 1
+            params = set(fi.params) - {"self", "cls"}
+            if not params:
+                continue
+            for t in [x for x in body_walk(fi.node) if isinstance(x, ast.If)]:
+                tt = u(t.test)
+                for st in t.body:
+                    if isinstance(st, ast.Assign) and isinstance(st.targets[0], ast.Attribute) and u(st.targets[0].value) == "self":
+                        a = u(st.targets[0])
+                        named = a in tt or f"'{st.targets[0].attr}'" in tt or f'"{st.targets[0].attr}"' in tt
+                        if named and (" is None" in tt or tt.startswith("not ") or "hasattr" in tt):
+                            used = sorted({x.id for x in ast.walk(st.value) if isinstance(x, ast.Name)} & params)
+                            if used:
+                                out.append((fi, st.targets[0].attr, used, st))
+    return out, scanned
+
+
+def r4_fresh_results_and_slot_memos(ctx):
+    """(a) every fetch from an indexed FASTA returns memory of its own (provenance analysis shared with C20): a result that aliases a buffer kept on the
+    reader is overwritten by the next fetch; (b) a value remembered in a single attribute slot on first use may not depend on an argument of the
+    call: the second call with another argument (another FASTA file) would get the first call's value."""
+    from .c20 import _analysis
+    an = _analysis(ctx)
+    n = 0
+    for mod, qn in (("bionumpy.io.indexed_fasta", "IndexedFasta.__getitem__"), ("bionumpy.io.indexed_fasta", "IndexedFasta.get_interval_sequences"),
+                    ("bionumpy.io.indexed_fasta", "IndexedFasta._get_interval_sequences_fast"), ("bionumpy.io.indexed_fasta", "IndexedFasta._get_interval_sequences"),
+                    ("bionumpy.genomic_data.genomic_sequence", "GenomicSequenceIndexedFasta._extract_intervals"),
+                    ("bionumpy.genomic_data.genomic_sequence", "GenomicSequenceIndexedFasta.extract_chromosome")):
+        if (mod, qn) not in an.summaries:
+            continue
+        n += 1
+        fi = an.funcs[(mod, qn)]
+        ret = an.summaries[(mod, qn)].returns
+        shared = sorted(str(t) for t in ret if isinstance(t, tuple) and t[0] in ("S",) or (isinstance(t, tuple) and t[0] == "P" and t[1] == 0))
+        ctx.ob(fi.where, f"{qn} returns memory of its own, never a view of a buffer kept on the reader (a later fetch must not change an earlier result)", not shared,
+               f"return provenance {sorted(map(str, ret))}", key=f"C17-R4|fresh-result|{qn}")
+    ctx.floor("indexed FASTA fetch functions with a return summary", n, 4)
+    ix = ctx.index
+    mods = [m for m in ix.modules if m.startswith("bionumpy.genomic_data") or m.startswith("bionumpy.io")]
+    sites, scanned = slot_memo_sites(ix, mods)
+    ctx.floor("methods scanned for single-slot memos", scanned, 300)
+    for fi, attr, used, st in sites:
+        ok = (fi.module.name, fi.qualname, attr) in SLOT_MEMO_OK
+        ctx.ob(fi.where, f"`self.{attr}` is filled on first use and returned ever after: its value may not depend on the call's argument(s) {used} "
+               "(a later call with another argument would silently get the first value)", ok, u(st)[:120], key=f"C17-R4|slot-memo|{fi.module.name}|{fi.qualname}|{attr}")
+    ctx.count("single-slot memos reading a parameter", len(sites))
+
+
 RULES = [
     ("C17-R1", r1_roles),
     ("C17-R2", r2_byte_arithmetic),
     ("C17-R3", r3_index_builder),
+    ("C17-R4", r4_fresh_results_and_slot_memos),
 ]
